@@ -89,12 +89,19 @@ impl Op {
 pub enum Conn {
     /// connect() / open() fails.
     #[serde(rename = "refuse")]
-    Refuse { kind: String },
+    Refuse {
+        kind: String,
+        /// The wall clock is moved by this much when the attempt is made (negative = set back).
+        #[serde(default, skip_serializing_if = "is_zero_i64")]
+        dt_us: i64,
+    },
     /// connect() / open() succeeds; reads are served from `ops`.  When the ops
     /// of the *last* connection of a TCP script are used up the simulation ends.
     #[serde(rename = "accept")]
     Accept { ops: Vec<Op> },
 }
+
+fn is_zero_i64(v: &i64) -> bool { *v == 0 }
 
 #[derive(Clone, Debug, PartialEq, Serialize, Deserialize)]
 pub struct Script {
